@@ -435,3 +435,35 @@ def class_rule(W, mtypes, argcls, P, sigkey=None, eligible=None):
     n = W.n
     return GRule([tuple(t for t in mt) for mt in mtypes], tuple(argcls), P,
                  app=lambda t, c: W.rel(c, t), le=lambda t, u: W.rel(t, u), sigkey=sigkey, eligible=eligible)
+
+
+def _pflag(x):
+    return bool(getattr(x, "flag", False))
+
+
+def _pflag2(x):
+    return bool(getattr(x, "flag2", False))
+
+
+PREDS += [_pflag, _pflag2]  # indexes 3, 4: predicates reading an attribute of the instance
+
+
+def full_outcome(call, LOG):
+    """run call(); returns (chain of entered methods, terminal): terminal = ('ret', repr) | ('AMB',) | ('NOM',) | ('EXC', ..)"""
+    del LOG[:]
+    try:
+        res = call()
+        term = ("ret", repr(res))
+    except TypeError as e:
+        msg = str(e)
+        if msg.startswith("Ambiguous resolution"):
+            term = ("AMB",)
+        elif msg.startswith("No method"):
+            term = ("NOM",)
+        else:
+            term = ("EXC", "TypeError:" + msg[:70])
+    except RecursionError:
+        term = ("LOOP",)
+    except Exception as e:  # noqa: BLE001
+        term = ("EXC", type(e).__name__ + ":" + str(e)[:70])
+    return [e[0] for e in LOG], list(term)
